@@ -9,13 +9,20 @@ Proof.
   intros H. apply andb_prop in H. destruct H as [H1 H2]. apply Ascii.eqb_eq in H1. f_equal; auto.
 Qed.
 
-Lemma table_parts :
-  forallb faithful_entry table = true /\ forallb ascii_entry table = true /\ nodupb (map fst table) = true /\
-  nodupb (map snd table) = true /\ prefix_freeb (map fst table) = true /\ prefix_freeb (map snd table) = true.
+Lemma check_table_parts (T : table_t) : check_table T = true ->
+  forallb faithful_entry T = true /\ forallb ascii_entry T = true /\ nodupb (map fst T) = true /\
+  nodupb (map snd T) = true /\ prefix_freeb (map fst T) = true /\ prefix_freeb (map snd T) = true.
 Proof.
-  pose proof table_ok as H. unfold check_table in H.
-  repeat (apply andb_prop in H; destruct H as [H ?]). repeat split; assumption.
+  unfold check_table. intros H.
+  apply andb_prop in H; destruct H as [H H6]. apply andb_prop in H; destruct H as [H H5].
+  apply andb_prop in H; destruct H as [H H4]. apply andb_prop in H; destruct H as [H H3].
+  apply andb_prop in H; destruct H as [H1 H2]. exact (conj H1 (conj H2 (conj H3 (conj H4 (conj H5 H6))))).
 Qed.
+
+Definition table_parts := check_table_parts table table_ok.
+
+Lemma forallb_in {X} (f : X -> bool) (l : list X) : forallb f l = true -> forall x, In x l -> f x = true.
+Proof. intros H. now apply forallb_forall. Qed.
 
 Lemma faithful_sound (e : bytes * bytes) : faithful_entry e = true ->
   exists cp, decode_utf8 (fst e) = Some cp /\ (128 <= cp < 65536)%N /\ snd e = prefix ++ hex4 cp.
@@ -25,10 +32,11 @@ Proof.
   exists cp. split; [reflexivity|]. split; [|now apply beqb_eq]. apply N.ltb_lt in F1. apply N.leb_le in F0. split; auto.
 Qed.
 
-Lemma faithful e : In e table -> exists cp, decode_utf8 (fst e) = Some cp /\ (128 <= cp < 65536)%N /\ snd e = prefix ++ hex4 cp.
-Proof.
-  intros I. destruct table_parts as [F _]. rewrite forallb_forall in F. exact (faithful_sound e (F e I)).
-Qed.
+Lemma faithful_table (T : table_t) : check_table T = true -> forall e : bytes * bytes, In e T ->
+  exists cp, decode_utf8 (fst e) = Some cp /\ (128 <= cp < 65536)%N /\ snd e = prefix ++ hex4 cp.
+Proof. intros H e I. apply faithful_sound. exact (forallb_in _ _ (proj1 (check_table_parts T H)) e I). Qed.
+
+Definition faithful := faithful_table table table_ok.
 
 Lemma ascii_entry_sound (e : bytes * bytes) : ascii_entry e = true ->
   head_unique ascii (snd e) /\ Forall (fun a => is_ascii a = true) (snd e) /\ Forall (fun a => is_ascii a = false) (fst e).
@@ -41,15 +49,18 @@ Proof.
   - apply Forall_forall. rewrite forallb_forall in F2. intros a J. apply F2 in J. now apply negb_true_iff in J.
 Qed.
 
-Lemma head_unique_entry e : In e table -> head_unique ascii (snd e) /\ Forall (fun a => is_ascii a = true) (snd e) /\
-  Forall (fun a => is_ascii a = false) (fst e).
+Lemma head_unique_table (T : table_t) : check_table T = true -> forall e : bytes * bytes, In e T ->
+  head_unique ascii (snd e) /\ Forall (fun a => is_ascii a = true) (snd e) /\ Forall (fun a => is_ascii a = false) (fst e).
+Proof. intros H e I. apply ascii_entry_sound. exact (forallb_in _ _ (proj1 (proj2 (check_table_parts T H))) e I). Qed.
+
+Definition head_unique_entry := head_unique_table table table_ok.
+
+Lemma roundtrip_sound (T : table_t) : check_roundtrip T = true -> forall e : bytes * bytes, In e T ->
+  mangle T (fst e) = snd e /\ demangle T (snd e) = fst e.
 Proof.
-  intros I. destruct table_parts as [_ [F _]]. rewrite forallb_forall in F. exact (ascii_entry_sound e (F e I)).
+  unfold check_roundtrip. intros H e I. apply andb_prop in H. destruct H as [H _].
+  pose proof (forallb_in _ _ H e I) as R. unfold roundtrip_entry in R. apply andb_prop in R. destruct R as [H1 H2].
+  exact (conj (beqb_eq _ _ H1) (beqb_eq _ _ H2)).
 Qed.
 
-Lemma roundtrip_char e : In e table -> mangle table (fst e) = snd e /\ demangle table (snd e) = fst e.
-Proof.
-  intros I. pose proof roundtrip_ok as H. unfold check_roundtrip in H. apply andb_prop in H. destruct H as [H _].
-  rewrite forallb_forall in H. specialize (H e I). unfold roundtrip_entry in H. apply andb_prop in H.
-  destruct H as [H1 H2]. split; now apply beqb_eq.
-Qed.
+Definition roundtrip_char := roundtrip_sound table roundtrip_ok.
